@@ -680,6 +680,9 @@ func (pl *renamePlan) empty() bool {
 
 // computeRenamePlan compares the tree with the pinned record; nil when there is nothing to do.
 func computeRenamePlan(repo string) *renamePlan {
+	if os.Getenv("TARSVERIF_NO_NAMES") != "" { // developer switch: measure the rules without this stage
+		return nil
+	}
 	if len(baselineNamesJSON) < 10 {
 		return nil
 	}
